@@ -95,6 +95,33 @@ def decode_fmt_template(bs):
             lit = bytes(bs[i + 1:i + 1 + b]).decode("utf-8")
             out.append(("lit", lit))
             i += 1 + b
+        elif b == 0x80:
+            n = bs[i + 1] | (bs[i + 2] << 8)
+            out.append(("lit", bytes(bs[i + 3:i + 3 + n]).decode("utf-8")))
+            i += 3 + n
+        elif b > 0xC0:
+            # placeholder with options: flags(4) width(2) precision(2) arg_index(2), little endian
+            i += 1
+            opt = {}
+            if b & 1:
+                fl = bs[i] | (bs[i + 1] << 8) | (bs[i + 2] << 16) | (bs[i + 3] << 24)
+                opt["fill"] = chr(fl & 0x1FFFFF)
+                opt["zero_pad"] = bool(fl & (1 << 24))
+                opt["alternate"] = bool(fl & (1 << 23))
+                opt["plus"] = bool(fl & (1 << 21))
+                i += 4
+            if b & 2:
+                opt["width"] = bs[i] | (bs[i + 1] << 8)
+                i += 2
+            if b & 4:
+                opt["precision"] = bs[i] | (bs[i + 1] << 8)
+                i += 2
+            if b & 8:
+                opt["index"] = bs[i] | (bs[i + 1] << 8)
+                i += 2
+            if b & 0x30:
+                opt["indirect"] = True
+            out.append(("arg", opt))
         else:
             raise ValueError("unknown format template opcode 0x%02X" % b)
     raise ValueError("unterminated format template")
